@@ -44,6 +44,7 @@ def dkeyName : DKey → String
   | .int i => s!"Index({i})"     -- (never arises here: `Pipe.Seg` has names and `Index` only)
   | .idx i => s!"Index({i})"     -- an `Index` object stored as a dict key (Model/Tree.lean keeps key objects since wp-C18F)
   | .lit _ _ => "Literal(?)"
+  | .obj id => s!"Object({id})"   -- (never arises here) an opaque hashable key object (Model/Tree.lean, wp-SC18c)
 
 partial def dump (h : Heap) (r : Nat) : Pipe.Val :=
   match h[r]? with
